@@ -280,6 +280,11 @@ func Main(prop string) {
 		}
 		c := &cases[idx]
 		run.LogCase(idx, c)
+		if c.hasPar() && !HooksKeyLock {
+			// without the observation points of the per-key lock its order under contention is not recorded
+			run.Hist("skipped:goroutines-inside-compute-need-patch-C04-hooks-2")
+			continue
+		}
 		res := RunCase(c)
 		seen := map[string]bool{}
 		for _, f := range res.Fails {
